@@ -864,7 +864,7 @@ impl Engine {
                     if opc == 10 {
                         vec![world.reserve_entity()]
                     } else {
-                        world.reserve_entities(n).collect::<Vec<_>>()
+                        drain_reserved(world.reserve_entities(n), n as usize)
                     }
                 }));
                 match res {
